@@ -38,7 +38,7 @@ def run(ctx):
     if not q:
         three += ctx.tlc_gen("MC_Persist", gen(procs="{1, 2, 3}", quotas="{1, 2}", kinds=BOTH, race="TRUE", view="", invs="SimEmitQuiet", **CONC),
                              "walks3", simulate=(2000, 40), workers=4)
-    scripts += cap(ctx, three, 120 if q else 6000)
+    scripts += cap(ctx, three, 120 if q else 4000)
     scripts = [[st for st in s if st["op"] != "Recover"] for s in scripts]
     ctx.assume("one tenant, quota 1-2, 2-3 threads, each creating one node (or relationship) with its own id",
                "the counters are judged when nothing is in flight (after every call returned) and after each of two recoveries on the "
